@@ -630,9 +630,11 @@ struct Exec
 							if (have != (*S) [k])
 							{	int B = block_frames (*t.fmt, t.ch, t.rate) ;
 								int64_t fr_i = k / ch ;
-								const char *disc = (B > 1 && fr_i >= (t.frames / B) * B) ? "last_partial_block" : (fr_i == t.rd ? "first_after_position" : "interior") ;
+								std::string disc = (B > 1 && fr_i >= (t.frames / B) * B) ? "last_partial_block" : (fr_i == t.rd ? "first_after_position" : "interior") ;
+								// ALAC counts frames exactly but decodes in packets of 4096: say whether the frame lies in the last packet of the file
+								if (t.fmt->sub >= SF_FORMAT_ALAC_16 && t.fmt->sub <= SF_FORMAT_ALAC_32 && t.frames > 0 && fr_i >= ((t.frames - 1) / 4096) * 4096) disc += "+last_packet" ;
 								snprintf (b, sizeof (b), "frame %lld ch %lld: got 0x%llx, sequential reference 0x%llx (read started at frame %lld)", (long long) fr_i, (long long) (k % ch), (unsigned long long) have, (unsigned long long) (*S) [k], (long long) t.rd) ;
-								viol (t, "data.ref", disc, b) ; break ;
+								viol (t, "data.ref", disc.c_str (), b) ; break ;
 							}
 						}
 						if (t.stop) break ;
@@ -1591,6 +1593,7 @@ struct Exec
 		else if (kind == "write_negative") applicable = t.mode != SFM_READ ;
 		else if (kind == "seek_wrong_flag") applicable = t.mode != SFM_RDWR && t.seekable ;
 		else if (kind == "seek_out_of_range" || kind == "seek_bad_whence") applicable = t.seekable ;
+		else if (kind == "seek_beyond_write") applicable = t.seekable && t.mode != SFM_READ ;
 		else if (kind == "seek_nonseekable") applicable = !t.seekable ;
 		else if (kind == "setstr_read_handle") applicable = t.mode == SFM_READ ;
 		else if (kind == "setstr_bad_type" || kind == "setstr_null" || kind == "setstr_empty") applicable = t.mode != SFM_READ ;
@@ -1626,6 +1629,15 @@ struct Exec
 		else if (kind == "seek_out_of_range")
 		{	int64_t off = (t.mode == SFM_READ && op.geti ("beyond", 0)) ? t.frames + 1 + op.geti ("n", 1) : -1 - op.geti ("n", 0) ;
 			ret = sf_seek (t.sf, off, SEEK_SET) ; expect_zero = false ; expect_ret = -1 ; }
+		else if (kind == "seek_beyond_write")
+		{	// writable handles: a seek beyond the end is accepted by some codecs and refused by others (block codecs). If it is refused
+			// it is a failed call like any other; if it is accepted the model simply follows the handle.
+			ret = sf_seek (t.sf, t.frames + 1 + op.geti ("n", 1), SEEK_SET | (t.mode == SFM_RDWR ? SFM_WRITE : 0)) ; expect_zero = false ; expect_ret = -1 ;
+			if (ret != -1)
+			{	r.ret = ret ; r.err = sf_error (t.sf) ; after_call (t, r) ; probe ("bad:seek_beyond_write_accepted") ;
+				Digest d = digest (t) ; sync_pos (t, d) ; sm [t.store].model_on = false ; free (buf) ; return ;
+			}
+		}
 		else if (kind == "seek_nonseekable") { ret = sf_seek (t.sf, 0, SEEK_SET) ; expect_zero = false ; expect_ret = -1 ; }
 		else if (kind == "cmd_unknown") { int ids [] = { 0x0FFF, 0x7FFFFFFF, -1, 0x1234 } ; ret = sf_command (t.sf, ids [op.geti ("n", 0) & 3], nullptr, 0) ; ret_is_code = true ; }
 		else if (kind == "cmd_bad_size")
